@@ -316,6 +316,21 @@ impl<'a, T: Read + Write + Seek> PointCloudWriter<'a, T> {
             }
         }
 
+        // Integer ranges check
+        for record in prototype {
+            match record.data_type {
+                RecordDataType::Integer { min, max }
+                | RecordDataType::ScaledInteger { min, max, .. } => {
+                    if min > max {
+                        Error::invalid(format!(
+                            "Minimum {min} of an integer type must not be bigger than the maximum {max}"
+                        ))?
+                    }
+                }
+                _ => {}
+            }
+        }
+
         // Time stamp check
         if let Some(record) = get(RecordName::IsTimeStampInvalid) {
             if !contains(RecordName::TimeStamp) {
